@@ -79,6 +79,9 @@ func Unpack(buf []byte, dotu bool) (fc *Fcall, fcsz int, err error) {
 
 		if dotu {
 			if len(p) > 0 {
+				if len(p) < 4 {
+					goto szerror
+				}
 				fc.Unamenum, p = gint32(p)
 			} else {
 				fc.Unamenum = NOUID
@@ -108,6 +111,9 @@ func Unpack(buf []byte, dotu bool) (fc *Fcall, fcsz int, err error) {
 
 		if dotu {
 			if len(p) > 0 {
+				if len(p) < 4 {
+					goto szerror
+				}
 				fc.Unamenum, p = gint32(p)
 			} else {
 				fc.Unamenum = NOUID
@@ -120,6 +126,9 @@ func Unpack(buf []byte, dotu bool) (fc *Fcall, fcsz int, err error) {
 			goto szerror
 		}
 		if dotu {
+			if len(p) < 4 {
+				goto szerror
+			}
 			fc.Errornum, p = gint32(p)
 		} else {
 			fc.Errornum = 0
@@ -129,6 +138,9 @@ func Unpack(buf []byte, dotu bool) (fc *Fcall, fcsz int, err error) {
 		fc.Fid, p = gint32(p)
 		fc.Newfid, p = gint32(p)
 		m, p = gint16(p)
+		if len(p) < int(m)*2 {
+			goto szerror
+		}
 		fc.Wname = make([]string, m)
 		for i := 0; i < int(m); i++ {
 			fc.Wname[i], p = gstr(p)
@@ -139,6 +151,9 @@ func Unpack(buf []byte, dotu bool) (fc *Fcall, fcsz int, err error) {
 
 	case Rwalk:
 		m, p = gint16(p)
+		if len(p) < int(m)*13 {
+			goto szerror
+		}
 		fc.Wqid = make([]Qid, m)
 		for i := 0; i < int(m); i++ {
 			p = gqid(p, &fc.Wqid[i])
@@ -156,6 +171,9 @@ func Unpack(buf []byte, dotu bool) (fc *Fcall, fcsz int, err error) {
 		fc.Fid, p = gint32(p)
 		fc.Name, p = gstr(p)
 		if p == nil {
+			goto szerror
+		}
+		if len(p) < 5 {
 			goto szerror
 		}
 		fc.Perm, p = gint32(p)
@@ -184,6 +202,9 @@ func Unpack(buf []byte, dotu bool) (fc *Fcall, fcsz int, err error) {
 		fc.Fid, p = gint32(p)
 		fc.Offset, p = gint64(p)
 		fc.Count, p = gint32(p)
+		if len(p) < int(fc.Count) {
+			goto szerror
+		}
 		if len(p) != int(fc.Count) {
 			fc.Data = make([]byte, fc.Count)
 			copy(fc.Data, p)
@@ -209,7 +230,10 @@ func Unpack(buf []byte, dotu bool) (fc *Fcall, fcsz int, err error) {
 	case Twstat:
 		fc.Fid, p = gint32(p)
 		_, p = gint16(p)
-		p, _ = gstat(p, &fc.Dir, dotu)
+		p, err = gstat(p, &fc.Dir, dotu)
+		if err != nil {
+			return nil, 0, err
+		}
 
 	case Rflush, Rclunk, Rremove, Rwstat:
 	}
